@@ -315,7 +315,7 @@ fn wrong_literal(p: &mut Prng, ty: &Ty) -> Expr {
     }
 }
 
-pub const KINDS: [&str; 27] = [
+pub const KINDS: [&str; 28] = [
     "type",               // operand/argument/field/condition/element/return/assigned value of another type
     "arity",              // wrong number of arguments / pattern binders
     "unknown-name",       // a variable / function / type / field / variant nobody declared
@@ -343,6 +343,7 @@ pub const KINDS: [&str; 27] = [
     "drop-value-after-loop", // the function's value is only returned from inside a loop that may not run
     "drop-value-short-circuit", // … or only from the right operand of `&&` / `||`, which may not be evaluated
     "unknown-type",       // a type nobody declared, in an annotation / parameter / return type / field / variant
+    "fstring-no-to-string", // an f-string interpolates a value whose type has no `to_string` method
 ];
 
 pub struct Mutant {
@@ -888,6 +889,21 @@ pub fn mutate(prng: &mut Prng, prog: &Prog, kind: &'static str) -> Option<Mutant
             };
             // through a function of the same type that mentions the constant, or directly
             let via_fn: Option<usize> = p.decls.iter().position(|d| matches!(d, Decl::Fn { params, ret, .. } if params.is_empty() && *ret == ty));
+            // two constants of one type defined as each other
+            let twin: Option<usize> = consts.iter().cloned().find(|j| *j != i && matches!(&p.decls[*j], Decl::Const { ty: t2, .. } if *t2 == ty));
+            if let (Some(j), true) = (twin, prng.chance(1, 3)) {
+                let other = match &p.decls[j] {
+                    Decl::Const { name, .. } => *name,
+                    _ => 0,
+                };
+                if let Decl::Const { e, .. } = &mut p.decls[i] {
+                    *e = Expr::Const(other);
+                }
+                if let Decl::Const { e, .. } = &mut p.decls[j] {
+                    *e = Expr::Const(me);
+                }
+                return Some(Mutant { prog: p, kind, detail: "two constants defined as each other".into() });
+            }
             match via_fn {
                 Some(j) if prng.chance(1, 2) => {
                     let fname = match &mut p.decls[j] {
@@ -938,6 +954,26 @@ pub fn mutate(prng: &mut Prng, prog: &Prog, kind: &'static str) -> Option<Mutant
                     b.stmts.push(Stmt::Do(Expr::UnitLit));
                 },
             )
+        }
+        "fstring-no-to-string" => {
+            let mut seed = prng.clone();
+            prng.next();
+            pick_expr(prng, prog, &|e, _, _| matches!(e, Expr::FStr(_)), &mut |e, _, _| {
+                if let Expr::FStr(parts) = e {
+                    let bad = match seed.below(4) {
+                        0 => Expr::ListLit(vec![Expr::IntLit(1, None)]),
+                        1 => Expr::Some(Box::new(Expr::BoolLit(true))),
+                        2 => Expr::UnitLit,
+                        _ => Expr::None,
+                    };
+                    if parts.is_empty() || seed.chance(1, 2) {
+                        parts.push(bad);
+                    } else {
+                        parts[0] = bad;
+                    }
+                    detail = "a part of an f-string has no to_string method".into();
+                }
+            })
         }
         "unknown-type" => {
             let mut p = prog.clone();
